@@ -1,6 +1,8 @@
 //! C16 — disks, spheres, segments, rays: containment, distance and hit queries are exact.
 //!
-//! Layout: `round.rs` (Disk / Sphere), `segment.rs` (LineSegment2/3), `ray.rs` (Ray::triangle_intersection).
+//! Layout: `round.rs` (Disk / Sphere), `segment.rs` (LineSegment2/3), `ray.rs` (Ray::triangle_intersection);
+//! `round_scale.rs` (scaled / overflowing / negative-radius disks and spheres, tiny and huge shapes) and
+//! `ray_scale.rs` (ray-triangle with triangle size, direction length and distance scaled by powers of two).
 //! All oracles work on plain arrays in the *oracle domain* `S::O` (`Rat` for `Rat`, `f64` for `f64`/`f32`)
 //! and never call the vek function they judge.
 
@@ -52,6 +54,12 @@ pub fn lift_v<S: Lift, const N: usize>(a: &[S; N]) -> [S::O; N] {
 /// `got` equals `want`: exactly in the exact domain, within `k * eps(S) * max(1, scale)` for floats
 /// (both already lifted to the oracle domain).
 pub fn near<S: Lift>(cx: &mut Cx, got: S::O, want: S::O, scale: f64, k: f64) -> bool {
+    near_fl::<S>(cx, got, want, scale, k, 1.0)
+}
+
+/// `near` with an explicit floor of the scale: `k * eps(S) * max(floor, scale)`. `floor = 0` makes the
+/// tolerance purely relative to the stated magnitude (configurations scaled by 2^k).
+pub fn near_fl<S: Lift>(cx: &mut Cx, got: S::O, want: S::O, scale: f64, k: f64, floor: f64) -> bool {
     cx.count();
     if S::EXACT {
         got == want
@@ -60,7 +68,7 @@ pub fn near<S: Lift>(cx: &mut Cx, got: S::O, want: S::O, scale: f64, k: f64) -> 
         if x == y {
             return true;
         }
-        let tol = k * S::eps() * scale.abs().max(1.0);
+        let tol = k * S::eps() * scale.abs().max(floor);
         let d = (x - y).abs();
         if !d.is_finite() {
             return false;
@@ -72,11 +80,14 @@ pub fn near<S: Lift>(cx: &mut Cx, got: S::O, want: S::O, scale: f64, k: f64) -> 
 
 /// `a >= b`: exactly in the exact domain, `a >= b - k*eps(S)*max(1,scale)` for floats.
 pub fn ge_tol<S: Lift>(cx: &mut Cx, a: S::O, b: S::O, scale: f64, k: f64) -> bool {
+    ge_tol_fl::<S>(cx, a, b, scale, k, 1.0)
+}
+pub fn ge_tol_fl<S: Lift>(cx: &mut Cx, a: S::O, b: S::O, scale: f64, k: f64, floor: f64) -> bool {
     cx.count();
     if S::EXACT {
         a >= b
     } else {
-        let tol = k * S::eps() * scale.abs().max(1.0);
+        let tol = k * S::eps() * scale.abs().max(floor);
         let (x, y) = (a.f(), b.f());
         if !(x.is_finite() && y.is_finite()) {
             return false;
@@ -94,6 +105,25 @@ macro_rules! near {
         let w = $want;
         if !$crate::near::<$S>($cx, g, w, $scale as f64, $k as f64) {
             return Err(vkit::Fail::Violation(format!("{}: got {:?}, want {:?} (scale {:.3e}, k {})", format!($($arg)*), g, w, $scale as f64, $k as f64)));
+        }
+    }};
+}
+/// `near!` / `ge_tol!` with an explicit floor of the scale (first argument after the domain).
+macro_rules! near_fl {
+    ($cx:expr, $S:ty, $floor:expr, $got:expr, $want:expr, $scale:expr, $k:expr, $($arg:tt)*) => {{
+        let g = $got;
+        let w = $want;
+        if !$crate::near_fl::<$S>($cx, g, w, $scale as f64, $k as f64, $floor as f64) {
+            return Err(vkit::Fail::Violation(format!("{}: got {:?}, want {:?} (scale {:.3e}, k {}, floor {})", format!($($arg)*), g, w, $scale as f64, $k as f64, $floor as f64)));
+        }
+    }};
+}
+macro_rules! ge_tol_fl {
+    ($cx:expr, $S:ty, $floor:expr, $a:expr, $b:expr, $scale:expr, $k:expr, $($arg:tt)*) => {{
+        let a = $a;
+        let b = $b;
+        if !$crate::ge_tol_fl::<$S>($cx, a, b, $scale as f64, $k as f64, $floor as f64) {
+            return Err(vkit::Fail::Violation(format!("{}: {:?} < {:?} (scale {:.3e}, k {}, floor {})", format!($($arg)*), a, b, $scale as f64, $k as f64, $floor as f64)));
         }
     }};
 }
@@ -155,6 +185,18 @@ pub fn isqrt_floor(x: i64) -> i64 {
     r
 }
 
+pub fn isqrt_floor128(x: i128) -> i128 {
+    debug_assert!(x >= 0);
+    let mut r = (x as f64).sqrt() as i128;
+    while r * r > x {
+        r -= 1;
+    }
+    while (r + 1) * (r + 1) <= x {
+        r += 1;
+    }
+    r
+}
+
 pub fn sq_dist<O: Dom, const N: usize>(a: &[O; N], b: &[O; N]) -> O {
     let d = vkit::refmath::subv(a, b);
     vkit::refmath::dot(&d, &d)
@@ -165,7 +207,9 @@ pub fn nonzero_count<S: Dom, const N: usize>(a: &[S; N]) -> usize {
 }
 
 mod ray;
+mod ray_scale;
 mod round;
+mod round_scale;
 mod segment;
 
 pub fn property() -> Property {
@@ -173,18 +217,25 @@ pub fn property() -> Property {
     round::checks(&mut checks);
     segment::checks(&mut checks);
     ray::checks(&mut checks);
+    round_scale::checks(&mut checks);
+    ray_scale::checks(&mut checks);
     Property {
         id: "C16",
         rule: "cases are byte tapes generated by proptest (uniform bytes, fixed seed) decoded by constructive generators into labelled classes (plus two exhaustive small integer grids); \
 a disk/sphere case is non-trivial when the radius is within one grid step (resp. the chosen delta) of the distance — tangency, just inside, just outside — or the offset has >= 2 non-zero components; \
 a shape case (bounds, measures) when the radius is neither 0 nor 1; a segment case when the segment is not axis-aligned or the foot of the perpendicular is at/next to an end or outside the segment; \
-a ray case when the crossing is on/next to an edge or vertex, the triangle is degenerate, the ray is parallel to the plane, or the direction has >= 2 non-zero components; distinct = distinct consumed tape prefix per check",
+a ray case when the crossing is on/next to an edge or vertex, the triangle is degenerate, the ray is parallel to the plane, or the direction has >= 2 non-zero components; \
+the *-scale-*, *-tiny-*, *-huge-* checks apply the same rules to the same arrangements multiplied exactly by powers of two (the scale regime is a label, not part of the rule); every *-neg-* and *-shape-scale-* case counts (negative / special radius resp. radius far from 1 by construction); distinct = distinct consumed tape prefix per check",
         assumptions: &[
             "rustc and the proptest runner/shrinker are trusted",
             "oracles: integer / rational squared-distance comparison (no sqrt), Cramer solve through vkit::refmath::det (Leibniz), clamped-parameter closed form plus a 257-point sampling of the segment; none calls the vek function it judges",
             "exact rational arithmetic (Rat over i128); irrational sqrt / i128 overflow poison the case, which is discarded and counted; Rat distances are therefore checked on Pythagorean configurations",
             "f32/f64 containment and collision are decided exactly only on the integer grid |coord| <= 1000: differences, squares and their sum (<= 1.2e7 < 2^24) are exact, IEEE sqrt is correctly rounded and monotone, fl(sqrt(R^2)) = R and fl(sqrt(R^2+1)) > R for every integer R < 4096 (1/(2R+1) > ulp(R)/2), so `sqrt(d2) <= R` equals `d2 <= R^2`",
-            "preconditions: radii >= 0; distinct centres for the collision vector; segments are either exactly degenerate (start == end, for which the code returns start) or ordinary: the seg*-tiny checks scale the arrangements down to 2^-40 so that 0 < |end-start|^2 <= T::epsilon() is covered (the base seg* checks keep squared length >= 1/64); ray-triangle determinants are exactly 0 or >= 1e-3 in magnitude (vek compares the determinant with T::epsilon(); Rat's epsilon is 2^-52)",
+            "scaled integer grid (disk/sphere-scale-*): the same exactness argument holds for the grid times 2^k as long as every square and the sum d2 * 2^2k is a normal, finite number (f64: -500 <= k, d2 * 4^k < 2^1023; f32: -60 <= k, d2 * 4^k < 2^127; f64 additionally integer d2 < 2^48 and R < 2^25, where R (2R+1) < 2^53 keeps sqrt(R^2+1) more than half an ulp above R). Where d^2 may overflow, the documented formula `distance <= radius` sees an infinite distance: 'outside -> false' is still asserted, 'inside -> true' is NOT (any implementation that squares the coordinates loses it); squares that underflow (k below the stated bounds) are not generated",
+            "negative radii (*-neg-*): the statement has no restriction on the radius and vek documents none, so it is read literally: no distance is <= a negative radius or a negative sum of radii, hence contains_point / collides_with_* are false (one negative radius with a non-negative sum: d <= r1 + r2); radius -0.0 is 0, radius +inf contains / collides with every finite shape, -inf with none; NaN radii are not generated. The collision vector is only called with radii >= 0 (tangency at a negative distance has no meaning); bounds and measures of negative radii are checked against the literal formulas only",
+            "ray-scale-*: integer configurations, positions * 2^kt, direction * 2^kd (f64 |kt| <= 200, |kd| <= 100; f32 |kt| <= 30, |kd| <= 20; Rat kt in -28..12, |kd| <= 14; hit parameter up to 2^30 / 2^8 / 2^10 direction lengths): all of vek's intermediate products stay normal finite numbers, the oracle is an exact i128 Cramer solve. vek itself treats |a| < T::epsilon() (a = edge1 . (direction x edge2), absolute test; 2^-52 for f64 and Rat, 2^-23 for f32) as parallel: exactly the cases with 0 < |a| < epsilon are not asserted (for integer / axis / Pythagorean directions vek's a is computed without rounding and equals det * 2^(2kt+kd); for rounded unit directions a band of the forward error bound 32 eps * sum|terms| around epsilon is excluded too); |a| = epsilon and above is asserted. Floats: hit/miss is asserted when every barycentric coordinate is farther from 0 than its forward error bound 2 * 16 eps * (sum|numerator terms| + |u| sum|determinant terms|) / |det| + 4 eps |u|, the parameter within the same bound; crossings exactly on an edge are decided in Rat only (there also 2^-20 .. 2^-60 beside an edge)",
+            "tolerances of every scaled check are relative to the magnitudes at that scale (no floor of 1): seg*-tiny/huge 32..64 eps * max|coordinate| (squares: 4 max^2), shape-scale 4..6 eps * |result|, collision vector 8 eps * |off_i|/d * (r1+r2+d) * 2^k",
+            "preconditions of the base checks: radii >= 0; distinct centres for the collision vector; segments are either exactly degenerate (start == end, for which the code returns start) or ordinary: the seg*-tiny checks scale the arrangements down to 2^-40 so that 0 < |end-start|^2 <= T::epsilon() is covered (the base seg* checks keep squared length >= 1/64); ray-triangle determinants of ray-rat / ray-f64 are exactly 0 or >= 1e-3 in magnitude (vek compares the determinant with T::epsilon(); Rat's epsilon is 2^-52) -- the ray-scale-* checks cover every determinant down to epsilon; seg*-huge scale up to 2^400 (f32 2^44, Rat 2^16) where |end-start|^2 and the dot products stay finite",
             "the ray direction need not be normalised for the asserted statement (Some(t) with origin + t*direction the crossing point); a share of the cases uses exactly normalised (Pythagorean) directions",
             "float tolerances are k * eps(S) * scale with the k and scale stated at each comparison; max observed error/tolerance is recorded in the evidence",
         ],
